@@ -106,7 +106,7 @@ pub fn check_position(p: &Pos, st: &mut Stats) -> Result<(), Fail> {
 }
 
 pub fn run(run: &mut Run) -> &'static str {
-    let cases = run.tier.pick(80_000, 2_000_000);
+    let cases = run.tier.pick(300_000, 6_000_000);
     run.proptest_part("moves", RULE, pos_case(4..160), cases, |c: &PosCase, st: &mut Stats| {
         let mix = match c {
             PosCase::Tape(t) if t.last().map_or(false, |x| x % 4 == 0) => Mix::General,
